@@ -34,6 +34,21 @@ block = sb + '\n' + '\n'.join(rows) + '\n' + se
 if sb in text:
     text = text[:text.index(sb)] + block + text[text.index(se) + len(se):]
     open(f'{V}/DESIGN.md', 'w').write(text)
+# ---- section 10: model-mutation scores
+mb, me = '<!-- BEGIN MODELMUT (generated from evidence/modelmut/*.json) -->', '<!-- END MODELMUT -->'
+rows = ['| property | model files mutated | mutants | killed by the kept cases | survived | did not compile |', '|---|---|---|---|---|---|']
+md = f'{V}/evidence/modelmut'
+if os.path.isdir(md):
+    for name in sorted(os.listdir(md)):
+        r = json.load(open(os.path.join(md, name)))
+        c = r.get('counts', {})
+        rows.append('| %s | %s | %d | %d | %d | %d |' % (r['property'], ', '.join(r.get('model_files', [])), len(r.get('mutants', [])),
+                                                   c.get('killed', 0), c.get('survived', 0), c.get('nocompile', 0)))
+text = open(f'{V}/DESIGN.md').read()
+block = mb + '\n' + '\n'.join(rows) + '\n' + me
+if mb in text:
+    text = text[:text.index(mb)] + block + text[text.index(me) + len(me):]
+    open(f'{V}/DESIGN.md', 'w').write(text)
 # ---- section 7: axioms actually reported by Print Assumptions (from the evidence files)
 ab, ae = '<!-- BEGIN AXIOMS (generated from evidence/*.json) -->', '<!-- END AXIOMS -->'
 rows = ['| property | theorems (obligations discharged) | assumptions printed by `Print Assumptions` |', '|---|---|---|']
